@@ -106,8 +106,12 @@ func (b body) extText() string {
 // C15-typeset-reference-mismatch-template.
 const xrefMismatch = true
 
-func xAlias(n string, refs ...string) body  { return body{kind: "alias", name: n, ext: true, refs: refs} }
-func xObject(n string, refs ...string) body { return body{kind: "object", name: n, ext: true, refs: refs} }
+func xAlias(n string, refs ...string) body {
+	return body{kind: "alias", name: n, ext: true, refs: refs}
+}
+func xObject(n string, refs ...string) body {
+	return body{kind: "object", name: n, ext: true, refs: refs}
+}
 func xSet(n string, types, refs []string, ts ...tsref) body {
 	return body{kind: "typeset", name: n, ext: true, types: types, refs: refs, tsrefs: ts}
 }
